@@ -144,7 +144,9 @@ func (s *system) request(user, verb, col string) cl.Req {
 	base := "/v2/collections"
 	switch verb {
 	case "create":
-		return cl.JSON("POST", base, uid, "basic", map[string]any{"id": col, "indexSchema": map[string]any{"tag": map[string]any{"type": "string", "string": map[string]any{"caseSensitive": true}}}})
+		return cl.JSON("POST", base, uid, "basic", map[string]any{"id": col, "indexSchema": map[string]any{"tag": map[string]any{"type": "string", "string": map[string]any{"caseSensitive": true}},
+			// an index that lives in the node-wide shared cache (every collection of every user has one under the same property name)
+			"v": map[string]any{"type": "vectorFlat", "vectorFlat": map[string]any{"vectorSize": 2, "distanceMetric": "euclidean"}}}})
 	case "list":
 		return cl.JSON("GET", base, uid, "basic", nil)
 	case "get":
@@ -152,11 +154,11 @@ func (s *system) request(user, verb, col string) cl.Req {
 	case "delcol":
 		return cl.JSON("DELETE", base+"/"+col, uid, "basic", nil)
 	case "insert":
-		return cl.JSON("POST", base+"/"+col+"/points", uid, "basic", map[string]any{"points": []any{map[string]any{"_id": pointID, "tag": "of-" + user, "owner": user}}})
+		return cl.JSON("POST", base+"/"+col+"/points", uid, "basic", map[string]any{"points": []any{map[string]any{"_id": pointID, "tag": "of-" + user, "owner": user, "v": userVec(user, 1)}}})
 	case "insert3":
 		var pts []any
 		for i := 2; i <= 4; i++ {
-			pts = append(pts, map[string]any{"_id": fmt.Sprintf("10000000-0000-4000-8000-00000000000%d", i), "tag": "bulk-" + user})
+			pts = append(pts, map[string]any{"_id": fmt.Sprintf("10000000-0000-4000-8000-00000000000%d", i), "tag": "bulk-" + user, "v": userVec(user, i)})
 		}
 		return cl.JSON("POST", base+"/"+col+"/points", uid, "basic", map[string]any{"points": pts})
 	case "update":
@@ -165,10 +167,20 @@ func (s *system) request(user, verb, col string) cl.Req {
 		return cl.JSON("POST", base+"/"+col+"/points/search", uid, "basic", map[string]any{"query": map[string]any{"property": "_id", "string": map[string]any{"value": pointID, "operator": "equals"}}, "select": []string{"*"}, "limit": 10})
 	case "searchtag":
 		return cl.JSON("POST", base+"/"+col+"/points/search", uid, "basic", map[string]any{"query": map[string]any{"property": "tag", "string": map[string]any{"value": "a", "operator": "greaterThan"}}, "select": []string{"*"}, "limit": 10})
+	case "searchvec":
+		return cl.JSON("POST", base+"/"+col+"/points/search", uid, "basic", map[string]any{"query": map[string]any{"property": "v", "vectorFlat": map[string]any{"vector": []any{1.0, 1.0}, "operator": "near", "limit": 10}}, "select": []string{"*"}, "limit": 10})
 	case "delpoint":
 		return cl.JSON("DELETE", base+"/"+col+"/points", uid, "basic", map[string]any{"ids": []string{pointID}})
 	}
 	panic("verb " + verb)
+}
+
+// userVec: the two users store different vectors under the same point ids
+func userVec(user string, i int) []any {
+	if user == "A" {
+		return []any{float64(i), 0.0}
+	}
+	return []any{0.0, float64(10 * i)}
 }
 
 var keep = map[string]bool{pointID: true, "10000000-0000-4000-8000-000000000002": true, "10000000-0000-4000-8000-000000000003": true, "10000000-0000-4000-8000-000000000004": true}
@@ -300,8 +312,8 @@ func alphabet() []any {
 	for _, u := range []string{"A", "B"} {
 		out = append(out, opRef{u + ":list"})
 		for c := 0; c < 2; c++ {
-			for _, v := range []string{"create", "get", "delcol", "insert", "insert3", "update", "search", "searchtag", "delpoint"} {
-				if c == 1 && (v == "update" || v == "insert3" || v == "searchtag") {
+			for _, v := range []string{"create", "get", "delcol", "insert", "insert3", "update", "search", "searchtag", "searchvec", "delpoint"} {
+				if c == 1 && (v == "update" || v == "insert3" || v == "searchtag" || v == "searchvec") {
 					continue
 				}
 				out = append(out, opRef{fmt.Sprintf("%s:%s:%d", u, v, c)})
@@ -312,7 +324,7 @@ func alphabet() []any {
 }
 
 func master(cfg *harness.Config, rep *harness.Report) {
-	rep.Rule = "user-id pairs incl. ids that are prefixes of one another, ids whose concatenation with a collection name collides with another user's keys (user 'abc' vs user 'ab' + collection 'c12'), '.', '..', ids with space, percent, backslash and non-ASCII, ids that are images of one another under name normalisations (non-portable characters -> '_', case folding, percent-unescaping), ids that are glob patterns matching the other id ('team[1]' / 'team1', 'a?c' / 'abc', '*'); both users use the same collection names and point ids (plus, per pair, a collection named like the other user's id where that is a legal name; one pair addresses \"..%2F<other user>%2F<collection>\"). Breadth-first search over the product alphabet (per user: list, and per collection create / get / delete / insert 1 / insert 3 / update / search by id / filter search / delete point) on one real node through the HTTP handler chain; in lock-step each user's sub-history runs alone on its own node; every response of the interleaved run must equal the solitary run's response (status + canonical body). States are de-duplicated on the file inventory of all three nodes plus every list / get / search answer"
+	rep.Rule = "user-id pairs incl. ids that are prefixes of one another, ids whose concatenation with a collection name collides with another user's keys (user 'abc' vs user 'ab' + collection 'c12'), '.', '..', ids with space, percent, backslash and non-ASCII, ids that are images of one another under name normalisations (non-portable characters -> '_', case folding, percent-unescaping), ids that are glob patterns matching the other id ('team[1]' / 'team1', 'a?c' / 'abc', '*'); both users use the same collection names and point ids (plus, per pair, a collection named like the other user's id where that is a legal name; one pair addresses \"..%2F<other user>%2F<collection>\"). Breadth-first search over the product alphabet (per user: list, and per collection create / get / delete / insert 1 / insert 3 / update / search by id / filter search / flat vector search (an index that lives in the node-wide shared cache) / delete point) on one real node through the HTTP handler chain; in lock-step each user's sub-history runs alone on its own node; every response of the interleaved run must equal the solitary run's response (status + canonical body). States are de-duplicated on the file inventory of all three nodes plus every list / get / search answer"
 	rep.Assumptions = []string{"user ids contain no '/' (the property's precondition)", "requests are issued one at a time: the node database serialises concurrent writers, so interleavings of whole requests are the schedule space at this level", "shard uuids are random and compared by rank"}
 	p := pool.New(pool.Options{CPUsPerWorker: 2, JobTimeout: 120 * time.Second})
 	if cfg.Replay != "" {
